@@ -479,6 +479,27 @@ func (x *Exec) store(s *State, p *PtrV, v Val) {
 	cur := x.E.objVal(s, p.Obj)
 	s.heap[p.Obj.id] = x.setPath(s, cur, p.Path, v, p.Obj.name)
 	x.recordWrite(s, p.Obj, p.Path)
+	var fp []int
+	for _, pe := range p.Path {
+		if pe.Index != nil {
+			fp = nil
+			break
+		}
+		fp = append(fp, pe.Field)
+	}
+	if fp != nil || len(p.Path) == 0 {
+		x.E.noteOwners(p.Obj, fp, v, 0)
+	}
+}
+
+// ownerOf maps a write to map / channel / slice storage to the struct
+// location holding the reference (if known).
+func (x *Exec) ownerOf(rec writeRec) (writeRec, bool) {
+	if rec.obj.kind == "" {
+		return rec, true
+	}
+	o, ok := x.E.owner[rec.obj.id]
+	return o, ok
 }
 
 // havoc replaces the content of a location by a fresh value.
@@ -716,7 +737,11 @@ func (x *Exec) checkTypeInvariants(s *State) {
 	seen := map[int]bool{}
 	var objs []*Object
 	for _, k := range sortedWriteKeys(s.writes) {
-		o := s.writes[k].obj
+		rec, ok := x.ownerOf(s.writes[k])
+		if !ok {
+			continue
+		}
+		o := rec.obj
 		if !seen[o.id] {
 			seen[o.id] = true
 			objs = append(objs, o)
@@ -734,7 +759,11 @@ func (x *Exec) checkTypeInvariants(s *State) {
 // a location a callee wrote (the callee checked them at its own return).
 func (x *Exec) assumeInvOfWritten(s *State, rec writeRec) {
 	if rec.obj.kind != "" {
-		return
+		o, ok := x.E.owner[rec.obj.id]
+		if !ok {
+			return
+		}
+		rec = o
 	}
 	v := x.E.objVal(s, rec.obj)
 	t := rec.obj.typ
@@ -1117,10 +1146,10 @@ func (x *Exec) enterLoop(s *State, li *loopInfo, b *ssa.BasicBlock, pred *ssa.Ba
 	li.invObjs = nil
 	seenObj := map[int]bool{}
 	for _, k := range sortedWriteKeys(writes) {
-		o := writes[k].obj
-		if o.kind == "" && !seenObj[o.id] {
-			seenObj[o.id] = true
-			li.invObjs = append(li.invObjs, writes[k])
+		rec, ok := x.ownerOf(writes[k])
+		if ok && !seenObj[rec.obj.id] {
+			seenObj[rec.obj.id] = true
+			li.invObjs = append(li.invObjs, rec)
 		}
 	}
 	x.checkLoopTypeInvs(s, li, "inv-init")
